@@ -212,9 +212,11 @@ def strat_history(tier):
 
   @st.composite
   def s(draw):
-    pool = draw(st.lists(op, min_size=1, max_size=5))
-    # variations of pooled calls: same seed other n, same n other generator, ...
-    ops = draw(st.lists(st.one_of(st.sampled_from(pool), op), min_size=0, max_size=14))
+    pool = draw(st.lists(op, min_size=1, max_size=6))
+    pooled = st.sampled_from(pool)
+    # mostly repetitions of pooled calls (in any order), some fresh calls in between
+    least = draw(st.sampled_from([1, 2, 8, 16]))      # shrinks towards short histories
+    ops = draw(st.lists(st.one_of(pooled, pooled, pooled, op), min_size=least, max_size=28))
     return [list(o) for o in ops]
   return s()
 
@@ -344,12 +346,12 @@ def run_stuck(desc):
 def _stuck_ns(tier):
   if tier != 'quick':
     return list(range(1, 2049)) + [64 * 100 + r for r in range(64)]
-  ns = set(range(1, 200))
+  ns = set(range(1, 137))
   for w in (32, 64, 128, 256, 512, 1024):
     for k in range(1, 2048 // w + 2):
-      for d in (-1, 0, 1, 2, 7, 8, 9):
+      for d in (-1, 0, 1, 2, 9):
         ns.add(w * k + d)
-  for k in range(25, 257, 3):
+  for k in range(17, 257, 7):
     for d in (1, 3, 4, 5, 6, 7):
       ns.add(8 * k + d)
   ns.update(64 * 70 + r for r in range(64))
@@ -368,7 +370,7 @@ def enum_stuck(tier):
 
 
 ARMS = [
-    Arm('history', run_history, strategy=strat_history, quick=24000, thorough=600000,
+    Arm('history', run_history, strategy=strat_history, quick=8000, thorough=400000,
         budget=(150, 1500),
         doc='model-based call histories over the whole registry: range, determinism across '
             'interleavings, java and trunclcg reference streams'),
